@@ -278,13 +278,39 @@ def run(ctx):
                 break
             if ctx.tier == "quick" and ctx.elapsed() > 45:
                 break
+        # index files far larger than any plausible read buffer: a small well-formed file repeated (a sequence of segments followed by
+        # the same segments again is a well-formed file, and its index is the repeated index) until the index passes a size target
+        targets = [300 * 1024] if ctx.tier == "quick" else [70 * 1024, 300 * 1024, 1100 * 1024, 2200 * 1024]
+        for target in ([] if (len(violations) >= 5 or len(disagreements) >= ctx.dis_limit) else targets):
+            for _ in range(40):
+                segs = gen_files.FileGen(ctx.rnd, max_segs=3, max_paths=3).draw()
+                if segs[-1]["lengthUnknown"] or not segs[0]["newList"]:
+                    continue
+                e = model.ask(gen_files.to_line(segs))
+                if not e.get("ok") or not e.get("wf"):
+                    continue
+                data, index = bytes.fromhex(e["file"]), bytes.fromhex(e["index"])
+                if not (60 <= len(index) <= 600) or len(data) > 1200:
+                    continue
+                k = target // len(index) + 1
+                big_data, big_index = data * k, index * k
+                r0, _ = canon.real_read(big_data, nptdms)
+                if not r0.get("ok"):
+                    continue
+                stats["large_index"] = stats.get("large_index", 0) + 1
+                stats["large_index_bytes"] = max(stats.get("large_index_bytes", 0), len(big_index))
+                d, v = check_pair(ctx, None, nptdms, tmp, big_data, big_index, stats, "spec index repeated %d times (%d bytes)" % (k, len(big_index)), False)
+                disagreements += d
+                violations += v
+                nontrivial.add(big_data)
+                break
     finally:
         shutil.rmtree(tmp, ignore_errors=True)
     return dict(violations=violations[:5], disagreements=disagreements[:20],
                 coverage=dict(evaluations=stats["comparisons"] + stats["model"] + stats["index_only"] + stats["truncated"], distinct_nontrivial=len(nontrivial),
                               rule="generated files (standard; every eighth DAQmx; every sixteenth a file repeating byte-identical `matches previous` metadata blocks around a changed raw data index; every eighth written by TdmsWriter with index_file=True over 1-2 sessions) on disk in a "
                                    "temporary directory, with no index / the Lean-spec index / the TdmsWriter index; read, open (+ lazy full reads), read_metadata, index "
-                                   "alone; every fourth file additionally with the data file cut short at two offsets under the full index (same with/without-index oracle, tdms_version excluded); non-trivial = distinct "
+                                   "alone; one small file repeated until its index exceeds 300 KiB (thorough: 70 KiB, 300 KiB, 1.1 MiB, 2.2 MiB) under the same with/without-index and index-alone oracles; every fourth file additionally with the data file cut short at two offsets under the full index (same with/without-index oracle, tdms_version excluded); non-trivial = distinct "
                                    "files holding raw data",
                               samples=samples or [dict(note="writer-produced files")], counts=stats))
 
